@@ -636,11 +636,32 @@ func (fr *Frame) lockCheck1(a Val, write bool, g *GuardSpec) {
 
 // ------------------------------------------------------------------ assert-at
 
+// frames whose clauses apply at the current point: the frame itself and, for a helper that is verified as part of
+// its caller (shape.go), the callers it is inlined into
+func (fr *Frame) clauseFrames() []*Frame {
+	var out []*Frame
+	if fr.spec != nil {
+		out = append(out, fr)
+	}
+	for h := fr.host; h != nil; h = h.host {
+		if h.spec != nil {
+			out = append(out, h)
+		}
+	}
+	return out
+}
+
 func (fr *Frame) assertAtStore(a Val, v Val) {
-	if fr.spec == nil || a.Src == nil || a.Src.kind != "field" {
+	if a.Src == nil || a.Src.kind != "field" {
 		return
 	}
-	for _, c := range fr.spec.Asserts {
+	for _, o := range fr.clauseFrames() {
+		fr.assertAtStoreFor(o, a, v)
+	}
+}
+
+func (fr *Frame) assertAtStoreFor(o *Frame, a Val, v Val) {
+	for _, c := range o.spec.Asserts {
 		if !strings.HasPrefix(c.Key, "store ") {
 			continue
 		}
@@ -652,8 +673,8 @@ func (fr *Frame) assertAtStore(a Val, v Val) {
 		if sel != short+"."+a.Src.fname && sel != a.Src.skey+"."+a.Src.fname {
 			continue
 		}
-		env := fr.envAt(fr.block, fr.idx, fr.cur.st, nil)
-		fr.matched[c] = true
+		env := o.envAt(o.block, o.idx, fr.cur.st, nil)
+		o.matched[c] = true
 		env.names["target"] = Val{T: a.Src.base, Ty: types.Typ[types.UnsafePointer]}
 		env.names["value"] = v
 		t, err := env.Goal(c.Expr)
@@ -674,11 +695,19 @@ func (fr *Frame) assertAtCall(calleeName string, args []Val, sig *types.Signatur
 			continue
 		}
 		for _, c := range h.spec.Asserts {
-			if !strings.HasPrefix(c.Key, "call ") || strings.Contains(c.Key, "#") {
+			if !strings.HasPrefix(c.Key, "call ") {
 				continue
 			}
 			sel := strings.TrimPrefix(c.Key, "call ")
+			want := -1
+			if i := strings.LastIndex(sel, "#"); i > 0 {
+				fmt.Sscanf(sel[i+1:], "%d", &want)
+				sel = sel[:i]
+			}
 			if !calleeMatches(calleeName, sel) {
+				continue
+			}
+			if want > 0 && want != fr.sourceOrdinal(sel) {
 				continue
 			}
 			h.matched[c] = true
@@ -824,6 +853,11 @@ func (fr *Frame) callCommon(cc *ssa.CallCommon, args []Val, fv Val, res ssa.Valu
 		return fr.havocCall("dynamic", resT, nil)
 	}
 	name := e.fnName(callee)
+	if runsLater[name] {
+		for _, a := range cc.Args {
+			fr.captureCheck(a, shortName(name))
+		}
+	}
 	fr.assertAtCall(name, args, callee.Signature)
 	fr.effectCheckCallee(callee, name)
 	defer func() { fr.assumeAtCall(name) }()
@@ -1121,9 +1155,7 @@ func (fr *Frame) inline(callee *ssa.Function, args []Val, bindings []Val, resT t
 	if sub.host != nil {
 		// results of calls made by the helper are results of calls made by the host
 		for k, v := range sub.lastRes {
-			if !strings.Contains(k, "#") {
-				fr.lastRes[k] = v
-			}
+			fr.lastRes[k] = v // numbered keys are already relative to the outermost host (sourceOrdinal)
 		}
 	}
 	if _, ok := resT.(*types.Tuple); ok {
@@ -1682,15 +1714,47 @@ func (fr *Frame) sourceOrdinal(sel string) int {
 	if fr.block == nil || fr.idx < 0 {
 		return 0
 	}
-	cur := fr.block.Instrs[fr.idx]
+	// the call is identified by the chain of call sites from the outermost host (shape.go: helpers that are
+	// verified as part of their caller) down to the current instruction
+	top := fr
+	path := []ssa.Instruction{fr.block.Instrs[fr.idx]}
+	for top.host != nil {
+		top = top.host
+		if top.block == nil || top.idx < 0 {
+			return 0
+		}
+		path = append([]ssa.Instruction{top.block.Instrs[top.idx]}, path...)
+	}
+	all := fr.e.virtualSeq(top.fn, sel, 0)
+	for i, c := range all {
+		if len(c) != len(path) {
+			continue
+		}
+		same := true
+		for k := range c {
+			if c[k] != path[k] {
+				same = false
+			}
+		}
+		if same {
+			return i + 1
+		}
+	}
+	return 0
+}
+
+// calls to sel in source order, as if every helper that is verified as part of its caller were written out at its
+// call sites (without such helpers this is the plain list of call sites of fn)
+func (e *Engine) virtualSeq(fn *ssa.Function, sel string, depth int) [][]ssa.Instruction {
 	type cp struct {
 		in  ssa.Instruction
 		pos int
 		seq int
+		sub *ssa.Function
 	}
 	var all []cp
 	seq := 0
-	for _, b := range fr.fn.Blocks {
+	for _, b := range fn.Blocks {
 		for _, in := range b.Instrs {
 			ci, ok := in.(ssa.CallInstruction)
 			if !ok {
@@ -1703,18 +1767,22 @@ func (fr *Frame) sourceOrdinal(sel string) int {
 				name = cc.Method.FullName()
 			} else if f := cc.StaticCallee(); f != nil {
 				name = f.String()
+				if _, isCall := in.(*ssa.Call); isCall && e.newHelpers[f] && e.specs.Funcs[name] == nil && depth < 6 {
+					all = append(all, cp{in, int(in.Pos()), seq, f})
+					continue
+				}
 			} else {
 				name = dynCallName(cc)
 				if u, ok := cc.Value.(*ssa.UnOp); ok {
 					if g, ok := u.X.(*ssa.Global); ok {
-						if f := fr.e.globalFunc(g); f != nil {
+						if f := e.globalFunc(g); f != nil {
 							name = f.String() // resolved exactly as the call itself is
 						}
 					}
 				}
 			}
 			if calleeMatches(name, sel) {
-				all = append(all, cp{in, int(in.Pos()), seq})
+				all = append(all, cp{in, int(in.Pos()), seq, nil})
 			}
 		}
 	}
@@ -1724,12 +1792,17 @@ func (fr *Frame) sourceOrdinal(sel string) int {
 		}
 		return all[i].seq < all[j].seq
 	})
-	for i, c := range all {
-		if c.in == cur {
-			return i + 1
+	var out [][]ssa.Instruction
+	for _, c := range all {
+		if c.sub == nil {
+			out = append(out, []ssa.Instruction{c.in})
+			continue
+		}
+		for _, inner := range e.virtualSeq(c.sub, sel, depth+1) {
+			out = append(out, append([]ssa.Instruction{c.in}, inner...))
 		}
 	}
-	return 0
+	return out
 }
 
 // ------------------------------------------------------------------ effects
@@ -1959,6 +2032,33 @@ func (fr *Frame) usesLockInv() bool {
 
 // rely conditions: assumed right after the matching call
 func (fr *Frame) assumeAtCall(calleeName string) {
+	for h := fr.host; h != nil; h = h.host {
+		if h.spec == nil {
+			continue
+		}
+		for _, c := range h.spec.Assumes {
+			sel := strings.TrimPrefix(c.Key, "call ")
+			want := -1
+			if i := strings.LastIndex(sel, "#"); i > 0 {
+				fmt.Sscanf(sel[i+1:], "%d", &want)
+				sel = sel[:i]
+			}
+			if !calleeMatches(calleeName, sel) || want > 0 && want != fr.sourceOrdinal(sel) {
+				continue
+			}
+			h.matched[c] = true
+			env := h.envAt(h.block, h.idx, fr.cur.st, nil)
+			t, err := env.Bool(c.Expr)
+			if err != nil {
+				fr.e.unsupported = append(fr.e.unsupported, fmt.Sprintf("%s: assume-at %s:%d: %v", fr.prefix, c.File, c.Line, err))
+				continue
+			}
+			fr.e.sc.emit("; rely condition assumed: " + c.Src)
+			fr.assumeHere(t)
+			fr.e.noteFacts(env, c.Expr, fr.cur.reach)
+			fr.e.assume("rely condition in " + h.prefix + " [" + labelOr(c) + "]: " + c.Src)
+		}
+	}
 	if fr.spec == nil {
 		return
 	}
@@ -2078,4 +2178,56 @@ func localValueName(cc *ssa.CallCommon) string {
 		}
 	}
 	return ""
+}
+
+// callees that run the function they are given after they return (worker pools, timers): a closure handed to them
+// inside a loop must not share a per-iteration variable with the loop
+var runsLater = map[string]bool{
+	"(*github.com/panjf2000/ants/v2.Pool).Submit": true,
+	"time.AfterFunc": true,
+}
+
+// captureCheck: v is a closure made inside a loop and handed to something that runs it later (a go statement, a
+// worker pool). Every variable it captures must either live outside the loop untouched by it or be declared inside
+// the loop body (a fresh cell per iteration). A captured variable that is declared outside the innermost enclosing
+// loop and assigned inside it (the loop variables of a `for ... := range` before Go 1.22, for instance) is shared by
+// all the closures: obligation kind "capture", which cannot be discharged.
+func (fr *Frame) captureCheck(v ssa.Value, where string) {
+	mc, ok := v.(*ssa.MakeClosure)
+	if !ok || fr.block == nil {
+		return
+	}
+	var loop *loopInfo
+	for _, li := range fr.loops {
+		if li.header != fr.block && !li.body[fr.block] {
+			continue
+		}
+		if loop == nil || len(li.body) < len(loop.body) {
+			loop = li
+		}
+	}
+	if loop == nil {
+		return
+	}
+	inLoop := func(b *ssa.BasicBlock) bool { return b == loop.header || loop.body[b] }
+	for _, b := range mc.Bindings {
+		al, ok := b.(*ssa.Alloc)
+		if !ok || inLoop(al.Block()) {
+			continue
+		}
+		assigned := false
+		for _, r := range *al.Referrers() {
+			if st, ok := r.(*ssa.Store); ok && st.Addr == ssa.Value(al) && inLoop(st.Block()) {
+				assigned = true
+			}
+		}
+		fr.oblige("capture", where+"("+al.Comment+")", boolSMT(!assigned))
+	}
+}
+
+func boolSMT(b bool) string {
+	if b {
+		return "true"
+	}
+	return "false"
 }
